@@ -328,3 +328,96 @@ Definition pidle_count (x : nat) (s : pstate) : nat := count_occ Nat.eq_dec (map
 (* a create() is in progress *)
 Definition pcreating (s : pstate) : nat :=
   sumf (fun th => match ppcof th with PCreating _ => 1 | _ => 0 end) (pthreads s).
+
+(* ================================================================== *)
+(* WP: the worker pools of core/mr (executeMappers) and core/fx (walkLimited; Walk,
+   Parallel, Map, Filter, ... with WithWorkers(n)).  Both are one dispatcher goroutine that
+   takes a slot of a buffered channel [pool] of size n per item (mr: slot first, then the
+   item, slot given back if the source is exhausted; fx: item first, then the slot), adds 1 to
+   a WaitGroup and starts a worker goroutine; the worker runs the user function (which may
+   panic: recovered inside the goroutine by mr, by threading.GoSafe for fx) and, in a
+   deferred function, does wg.Done() and then <-pool.  mr additionally sets [failed] on a
+   panic, which stops the dispatcher at its next loop head.  Schedule element 0 is the
+   dispatcher, k+1 is worker k (in order of creation). *)
+
+Inductive wvariant := WMr | WFx.
+Inductive wtst := WSp | WRun | WRel | WDn.   (* spawned / in the user fn / wg.Done done, slot still held / finished *)
+Record wtask := mkWT { wst : wtst; wpanics : bool }.
+
+Inductive dpc :=
+| DInit                       (* ForEach / Walk not yet called *)
+| DTop                        (* loop head *)
+| DAcq (it : option bool)     (* blocking send into pool (fx: holding the item already read) *)
+| DRead                       (* mr: slot taken, reading the next item *)
+| DSpawn (p : bool)           (* slot and item in hand: wg.Add(1); go worker *)
+| DWait                       (* wg.Wait() *)
+| DDone.
+
+Record wstate := mkWS
+  { wvar : wvariant; wcap : nat; wc : nat; wwg : nat;
+    witems : list bool;        (* remaining items of the source: does the user fn panic on it *)
+    wfailed : bool;            (* mr: a mapper panicked *)
+    wd : dpc;
+    wtasks : list wtask }.
+
+Definition winit (v : wvariant) (n : nat) (items : list bool) : wstate :=
+  mkWS v n 0 0 items false DInit [].
+
+Definition wset_d (s : wstate) (c wg : nat) (items : list bool) (d : dpc) (tasks : list wtask) : wstate :=
+  mkWS (wvar s) (wcap s) c wg items (wfailed s) d tasks.
+
+Definition wstep (s : wstate) (x : nat) : option wstate :=
+  match x with
+  | O =>
+    match wd s with
+    | DInit => Some (wset_d s (wc s) (wwg s) (witems s) DTop (wtasks s))
+    | DTop =>
+      match wvar s with
+      | WMr => Some (wset_d s (wc s) (wwg s) (witems s) (if wfailed s then DWait else DAcq None) (wtasks s))
+      | WFx =>
+        match witems s with
+        | [] => Some (wset_d s (wc s) (wwg s) [] DWait (wtasks s))
+        | p :: rest => Some (wset_d s (wc s) (wwg s) rest (DAcq (Some p)) (wtasks s))
+        end
+      end
+    | DAcq it =>
+      if Nat.ltb (wc s) (wcap s) then
+        Some (wset_d s (S (wc s)) (wwg s) (witems s)
+                     (match it with Some p => DSpawn p | None => DRead end) (wtasks s))
+      else None
+    | DRead =>
+      match witems s with
+      | [] => Some (wset_d s (pred (wc s)) (wwg s) [] DWait (wtasks s))
+      | p :: rest => Some (wset_d s (wc s) (wwg s) rest (DSpawn p) (wtasks s))
+      end
+    | DSpawn p => Some (wset_d s (wc s) (S (wwg s)) (witems s) DTop (wtasks s ++ [mkWT WSp p]))
+    | DWait => if Nat.eqb (wwg s) 0 then Some (wset_d s (wc s) (wwg s) (witems s) DDone (wtasks s)) else None
+    | DDone => None
+    end
+  | S k =>
+    match nth_error (wtasks s) k with
+    | Some tk =>
+      let put st := upd_nth (wtasks s) k (mkWT st (wpanics tk)) in
+      match wst tk with
+      | WSp => Some (mkWS (wvar s) (wcap s) (wc s) (wwg s) (witems s) (wfailed s) (wd s) (put WRun))
+      | WRun =>   (* fn returns or panics; deferred: (mr: failed := 1 on panic); wg.Done() *)
+        Some (mkWS (wvar s) (wcap s) (wc s) (pred (wwg s)) (witems s)
+                   (wfailed s || (match wvar s with WMr => wpanics tk | WFx => false end)) (wd s) (put WRel))
+      | WRel =>   (* <-pool *)
+        Some (mkWS (wvar s) (wcap s) (pred (wc s)) (wwg s) (witems s) (wfailed s) (wd s) (put WDn))
+      | WDn => None
+      end
+    | None => None
+    end
+  end.
+
+Definition wexec (v : wvariant) (n : nat) (items : list bool) (sched : list nat) : wstate :=
+  run wstep (winit v n items) sched.
+
+Definition w_running (tk : wtask) : nat := match wst tk with WRun => 1 | _ => 0 end.
+Definition w_live (tk : wtask) : nat := match wst tk with WDn => 0 | _ => 1 end.
+Definition w_counted (tk : wtask) : nat := match wst tk with WSp | WRun => 1 | _ => 0 end.
+Definition wrunning (s : wstate) : nat := sumf w_running (wtasks s).
+Definition wlive (s : wstate) : nat := sumf w_live (wtasks s).
+(* the dispatcher holds a slot it has not yet handed to a worker *)
+Definition whold (s : wstate) : nat := match wd s with DRead | DSpawn _ => 1 | _ => 0 end.
